@@ -21,7 +21,7 @@ Definition a_strlike (a : aterm) : bool :=
 Definition a_klen (a : aterm) : N :=
   match at_rec a with
   | FStr v => N.of_nat (length v)
-  | FKw _ => at_regex_len a - 4
+  | FKw _ => at_name_len a
   | FRegex _ => 0
   end.
 
